@@ -7,7 +7,7 @@ here = os.path.dirname(os.path.dirname(os.path.abspath(__file__)))
 CLAIMS = {
  # id: (technique, level text, level note, design ref)
  "C02": ("who-may-call + path analysis + finite-domain status propagation (lifecycle table) on the type-checked AST",
-         "Static necessary conditions of the concurrency bound: the in-flight counter is raised only in the dispatcher path behind `inflight < limit` of the same iteration, net increments per step path equal hand-offs, it is lowered once per completion after the worker function, every value stored into the limit is provably >= 1, and (from the extracted lifecycle table) a dispatcher goroutine is spawned only from status Initiated, which is stored only after the old signal channel was closed and re-made. The dispatcher goroutine closes a per-run exit channel and every path that re-spawns a dispatcher waits for it after closing the old signal channel (no stale dispatcher steps next to the new one); only the dispatcher goroutine runs the step. Does not decide the peak under concurrent TunePool calls.",
+         "Static necessary conditions of the concurrency bound: the in-flight counter is raised only in the dispatcher path behind `inflight < limit` of the same iteration, net increments per step path equal hand-offs, it is lowered once per completion after the worker function, every value stored into the limit is provably >= 1, and (from the extracted lifecycle table) a dispatcher goroutine is spawned only from status Initiated, which is stored only after the old signal channel was closed and re-made. The dispatcher goroutine closes a per-run exit channel and every path that re-spawns a dispatcher waits for it after closing the old signal channel (no stale dispatcher steps next to the new one); only the dispatcher goroutine runs the step. A narrowing conversion on the way into the limit needs an established upper bound (no wrap-around to 0). Does not decide the peak under concurrent TunePool calls.",
          "Trusts go/types; the lifecycle table is a sequential semantics (one control call at a time); runtime.NumCPU() >= 1.",
          "DESIGN.md §3 C02"),
  "C03": ("path analysis + context-sensitive lockset / lock-order analysis + lifecycle table on the type-checked AST",
@@ -23,7 +23,7 @@ CLAIMS = {
          "Trusts sync.WaitGroup; the job table is sequential per job.",
          "DESIGN.md §3 C05"),
  "C06": ("table extraction of the wait/release predicates over the abstract state space + lockset + path rules + lifecycle table",
-         "Structural necessary conditions of exact barriers: the wait predicate equals the reference over status x pending x in-flight and is re-evaluated in a loop; the release evaluation reaches Broadcast wherever the wait predicate is false (Running/Paused); Broadcast runs under the Cond's mutex; every in-flight decrement, every drain of the queue and Purge re-evaluate the release; the in-flight counter is raised before the dequeue; Stop/PauseAndWait/WaitAndStop wait before they act. The release is a Broadcast (never Signal); the step reserves its slot before it reads the status; the completion lowers the in-flight counter only after the job's Close. Does not decide concurrent barrier callers or the protocol's sufficiency as a whole.",
+         "Structural necessary conditions of exact barriers: the wait predicate equals the reference over status x pending x in-flight and is re-evaluated in a loop; the release evaluation reaches Broadcast wherever the wait predicate is false (Running/Paused); Broadcast runs under the Cond's mutex; every in-flight decrement, every drain of the queue and Purge re-evaluate the release; the in-flight counter is raised before the dequeue; Stop/PauseAndWait/WaitAndStop wait before they act. The release is a Broadcast (never Signal); the step reserves its slot before it reads the status; the completion lowers the in-flight counter only after the job's Close. Every store of Paused is followed by a release evaluation (callers parked on the running worker are woken); the signal send is attempted under the blocking read lock. Does not decide concurrent barrier callers or the protocol's sufficiency as a whole.",
          "Trusts sync.Cond and sequentially consistent atomics.",
          "DESIGN.md §3 C06"),
  "C07": ("lexical containment + path analysis + sibling agreement over the three worker-function wrappers",
@@ -51,11 +51,11 @@ CLAIMS = {
          "Trusts encoding/json to honour struct tags.",
          "DESIGN.md §3 C12"),
  "C13": ("sibling agreement of the distributed binders + path analysis of the subscription handler",
-         "Each distributed binder performs exactly one Register(adapter) → start → Subscribe(own handler); the handler counts one submission and notifies per 'enqueued' and nothing otherwise; producer-side Add touches no worker; a lost dequeue race is an error return, not a loop exit; completion re-notifies. Does not decide that exactly one of k consumers runs an item (the adapter's atomic dequeue).",
+         "Each distributed binder performs exactly one Register(adapter) and one Subscribe(own handler), both before exactly one start; the handler counts one submission and notifies per 'enqueued' and nothing otherwise; producer-side Add touches no worker; a lost dequeue race is an error return, not a loop exit; completion re-notifies. Binders subscribe before they start; a bind on an already running worker wakes the dispatcher. Does not decide that exactly one of k consumers runs an item (the adapter's atomic dequeue).",
          "Trusts the adapter's Dequeue and notification delivery.",
          "DESIGN.md §3 C13"),
  "C14": ("finite-domain status propagation: lifecycle and bind methods extracted as a sequential transition table, compared with the documented machine",
-         "Every (method, initial state) cell of Pause, PauseAndWait, Resume, Stop, WaitAndStop, Restart, TunePool, start and all 16 public bind methods equals the documented machine (error, final state, required/forbidden effects); closed channels are final or re-made; the context listener stops only its own run; Status()/Is* tables. The previous context is cancelled inside the same write-locked section that replaces it. Sequential semantics: concurrent control calls are not decided.",
+         "Every (method, initial state) cell of Pause, PauseAndWait, Resume, Stop, WaitAndStop, Restart, TunePool, start and all 16 public bind methods equals the documented machine (error, final state, required/forbidden effects); closed channels are final or re-made; the context listener stops only its own run; Status()/Is* tables. The previous context is cancelled inside the same write-locked section that replaces it. The context listener is spawned only after Running is stored; a bind on a running worker has exactly one effect, the wake-up; every option handed to a constructor is applied on every path. Sequential semantics: concurrent control calls are not decided.",
          "One control call at a time.",
          "DESIGN.md §3 C14"),
  "C15": ("path counting over the bind methods + table extraction of the strategy switch and comparators + lockset",
@@ -67,15 +67,15 @@ CLAIMS = {
          "Trusts sync/atomic.",
          "DESIGN.md §3 C16"),
  "C17": ("lockset over atomic counter reads + path analysis of submit/completion/wrappers + who-may-call",
-         "No function combines two separately loaded counters without the writers' lock; Submitted once per accepted submission / announcement, never on rejection; one Completed per completion, one of Successful/Failed per invocation; queues registered once and Manager.Len sums them under the lock; in-flight inc/dec pairing; Purge resets both counters under the write lock. Persistent binds never subscribe (Submitted once per job); one dispatcher at a time, joined across Restart. Does not decide transient bounds between atomics of different objects.",
+         "No function combines two separately loaded counters without the writers' lock; Submitted once per accepted submission / announcement, never on rejection; one Completed per completion, one of Successful/Failed per invocation; queues registered once and Manager.Len sums them under the lock; in-flight inc/dec pairing; Purge resets both counters under the write lock. Persistent binds never subscribe (Submitted once per job); one dispatcher at a time, joined across Restart. Completed is counted before the in-flight slot (and the barrier) is released. Does not decide transient bounds between atomics of different objects.",
          "Lock identity per (type, field).",
          "DESIGN.md §3 C17"),
  "C18": ("goroutine inventory + lifecycle table + path rules + table extraction",
-         "Every go statement is classified with its blocking receives and the event that releases them, each performed by every Stop outcome (a ticker loop needs a done case closed by stopTickers); Stop's full tear-down after the wait, Restart removes idle nodes first; nodes created only on the empty-idle-list branch and once in start; snapshot slices bounded by the snapshot's own length; minimum idle = max(limit*ratio/100,1) on sample points, kept by freePoolNode and by TunePool's strict shrink guard; node ownership typestate. Restart stops the previous run's tickers before it spawns a new reaper; TunePool stores the limit before it wakes the dispatcher. Does not decide expiry timing.",
+         "Every go statement is classified with its blocking receives and the event that releases them, each performed by every Stop outcome (a ticker loop needs a done case closed by stopTickers); Stop's full tear-down after the wait, Restart removes idle nodes first; nodes created only on the empty-idle-list branch and once in start; snapshot slices bounded by the snapshot's own length; minimum idle = max(limit*ratio/100,1) on sample points, kept by freePoolNode and by TunePool's strict shrink guard; node ownership typestate. Restart stops the previous run's tickers before it spawns a new reaper; TunePool stores the limit before it wakes the dispatcher. A node taken out of the idle list is stopped, recycled, re-inserted or used on every path (no leak); freePoolNode retires only after establishing idle >= minimum. Does not decide expiry timing.",
          "time.Ticker.Stop does not close C.",
          "DESIGN.md §3 C18"),
  "C19": ("context-sensitive static lockset over every struct field of the library (abstract interpretation, CHA, instantiation-aware)",
-         "For every struct field reachable from the public API, goroutine bodies and callbacks: never written after publication, or one common lock (writers in write mode), or a listed hand-off whose structural side conditions are re-checked. No library struct holding a mutex/WaitGroup/atomic is copied by value. A static over-approximation of data-race freedom for lock/atomic/channel-hand-off synchronisation; other happens-before idioms are reported, never silently accepted.",
+         "For every struct field reachable from the public API, goroutine bodies and callbacks: never written after publication, or one common lock (writers in write mode), or a listed hand-off whose structural side conditions are re-checked. No library struct holding a mutex/WaitGroup/atomic is copied by value. Fields of configs/jobConfigs are assigned only through locals or parameters; no whole-struct overwrite of an object holding atomics. A static over-approximation of data-race freedom for lock/atomic/channel-hand-off synchronisation; other happens-before idioms are reported, never silently accepted.",
          "Trusts go/types, sync/atomic/channels; internal packages are not user-callable; mocks and user adapters excluded.",
          "DESIGN.md §3 C19"),
  "C01": ("who-may-call + path/typestate analysis on the type-checked AST (abstract interpretation, callee inlining)",
